@@ -4,6 +4,7 @@ from collections.abc import Sequence
 from typing import Any
 
 import os
+import shutil
 import warnings
 
 import numpy
@@ -61,6 +62,21 @@ class Holder:
         memory_storage = storage.InMemoryStorage(is_eternal=self._eternal)
         memory_storage._arrays = dict(self._memory_storage._arrays)
         new_dict["_memory_storage"] = memory_storage
+
+        # ... nor its files: the values kept on disk are copied to a directory
+        # of the clone's own simulation.
+        if self._disk_storage is not None:
+            disk_storage = new.create_disk_storage()
+            for period, path in self._disk_storage._files.items():
+                new_path = os.path.join(
+                    disk_storage.storage_dir, os.path.basename(path)
+                )
+                shutil.copyfile(path, new_path)
+                disk_storage._files[period] = new_path
+            enum = self._disk_storage._enums.get(self._disk_storage.storage_dir)
+            if enum is not None:
+                disk_storage._enums[disk_storage.storage_dir] = enum
+            new_dict["_disk_storage"] = disk_storage
 
         return new
 
